@@ -168,6 +168,10 @@ def install(I):
             ks = {I_.data_kind.get(x) for x in a.atoms()}
             if ks and ks <= {'generic', 'const', 'nan'} and a.is_monomial():
                 return False        # a generic (or constant non-zero) datum is not within tolerance of a fixed number
+        if isinstance(a, Rat) and isinstance(b, Rat) and not a.eq(b):
+            ka = {I_.data_kind.get(x) for x in a.atoms()} | {I_.data_kind.get(x) for x in b.atoms()}
+            if ka and ka <= {'generic', 'nan'} and a.is_monomial() and b.is_monomial():
+                return False        # two different entries of generic data are not within tolerance of each other
         return base_isclose(I_, fr, args, kwargs, n)
 
     base_mean = I.native['numpy.mean']
